@@ -397,6 +397,21 @@ def gen_con(rng, nv, doms):
             lhs, rhs = rhs, lhs
         return ["cmp", rng.choice(["eq", "ne", "ne"]), lhs, rhs]
     if r < 0.1:
+        # a constant minus a variable where its sign or weight is not +1: on the right-hand side, or under a multiplication
+        i = rng.randrange(nv)
+        j = rng.randrange(nv)
+        c = rng.randint(1, max(2, doms[i][1] + doms[j][1]))
+        m = rng.choice([2, -1, 3])
+        shapes = [
+            (_v(j), ["sub", _c(c), _v(i)]),
+            (["add", _v(i), _v(j)], ["sub", _c(c), _v(i)]),
+            (["mul", ["sub", _c(c), _v(i)], m], _v(j)),
+            (["rmul", m, ["sub", _c(c), _v(i)]], ["add", _v(j), _c(1)]),
+            (_c(rng.randint(0, 3)), ["sub", _c(c), ["add", _v(i), _v(j)]]),
+        ]
+        lhs, rhs = rng.choice(shapes)
+        return ["cmp", rng.choice(["eq", "eq", "ne"]), lhs, rhs]
+    if r < 0.15:
         # a plain signed sum k1*x + k2*y (+ k3*z) with negative multipliers, compared with a value it can actually take: every term
         # matters for the set of solutions
         k = rng.randint(1, min(3, nv))
